@@ -427,19 +427,52 @@ def linked_header(prev_hash32, salt, k, variant, root):
             struct.pack("<III", 1500000000 + 150 * k, 0x1f00ffff, (k * 7 + variant) & 0xffffffff))
 
 
+class HistoryNetwork:
+    """server stub for the ledger's header sync and cached transaction lookups"""
+
+    def __init__(self, chain, current):
+        self.chain = chain          # {"bytes": the server's header chain}
+        self.current = current      # () -> (raw tx, merkle reply) | None
+
+    def retriable_call(self, function, *args, **kwargs):
+        return function(*args, **kwargs)
+
+    async def get_headers(self, height, count=10000, b64=False):
+        data = self.chain["bytes"][height * HEADER_SIZE:(height + count) * HEADER_SIZE]
+        return {"hex": data.hex(), "count": len(data) // HEADER_SIZE}
+
+    async def get_transaction_batch(self, txids, restricted=True):
+        cur = self.current()
+        res = {}
+        for t in txids:
+            if cur is not None:
+                res[t] = (cur[0].hex(), dict(cur[1]))
+        return res
+
+    async def get_merkle(self, txid, height):
+        cur = self.current()
+        return dict(cur[1]) if cur is not None else {"block_height": height}
+
+
 @st.composite
 def history_case(draw, tier="quick"):
     n = draw(st.integers(3, 7))
     ops = []
+    # most operations of one history concern the same height / transaction, so that "verified, then reorganised at exactly
+    # that height, then looked up again" happens often
+    focus_h, focus_i = draw(st.integers(0, 9)), draw(st.integers(0, 8))
     for _ in range(draw(st.integers(2, 10))):
         kind = draw(st.sampled_from(["verify", "verify", "verify", "reorg", "read"]))
         if kind == "verify":
-            ops.append({"op": "verify", "h": draw(st.integers(0, 9)), "i": draw(st.integers(0, 8)),
+            ops.append({"op": "verify", "h": draw(st.sampled_from([focus_h, focus_h, draw(st.integers(0, 9))])),
+                        "i": draw(st.sampled_from([focus_i, focus_i, draw(st.integers(0, 8))])),
                         "proof": draw(st.sampled_from(["genuine", "genuine", "bad_branch", "bad_pos", "old_block", "other_height"])),
-                        "reuse": draw(st.booleans()), "via": draw(st.sampled_from(["arg", "network"])),
+                        "reuse": draw(st.booleans()), "via": draw(st.sampled_from(["arg", "network", "cached", "cached"])),
                         "a": draw(st.integers(0, 255))})
         elif kind == "reorg":
-            ops.append({"op": "reorg", "from": draw(st.integers(1, 8)), "len": draw(st.integers(1, 5))})
+            ops.append({"op": "reorg", "from": draw(st.sampled_from([focus_h + 1, focus_h + 1, draw(st.integers(1, 8))])),
+                        "len": draw(st.integers(1, 5)),
+                        "via_ledger": draw(st.booleans())})
         else:
             ops.append({"op": "read", "h": draw(st.integers(0, 9))})
     return {"salt": draw(st.integers(0, 2 ** 32)), "n": n,
@@ -487,6 +520,7 @@ def run_history(case):
         variant[k] = 0
     txs = {}
     nreorg = nreverify = 0
+    server_chain = {"bytes": stored()}
     for step, op in enumerate(case["ops"]):
         length = len(stored()) // HEADER_SIZE
         if op["op"] == "read":
@@ -499,12 +533,31 @@ def run_history(case):
         elif op["op"] == "reorg":
             f = 1 + (op["from"] - 1) % (length - 1) if length > 1 else 1
             v = step + 1
+            if op.get("via_ledger"):
+                op = dict(op, len=max(op["len"], length - f))   # the server's branch is at least as long as ours
             chunk = build(f, op["len"], v)
-            try:
-                added = aio.run(headers.connect(f, chunk))
-            except Exception as e:
-                out.violate("history:connect-raises:%s" % type(e).__name__, repr(e)[:200])
-                return out
+            if op.get("via_ledger"):
+                # the wallet's own reorganisation path: a subscription header for the new tip does not connect, the ledger
+                # rewinds height by height asking the server for headers until the new branch links
+                server_chain["bytes"] = stored()[:f * HEADER_SIZE] + chunk
+                tip_h = f + op["len"] - 1
+                ledger.network = HistoryNetwork(server_chain, lambda: None)
+                try:
+                    aio.run(ledger.update_headers(height=tip_h, headers=chunk[-HEADER_SIZE:].hex(), subscription_update=True))
+                except Exception as e:
+                    out.violate("history:update_headers-raises:%s" % type(e).__name__, repr(e)[:200])
+                    return out
+                added = op["len"] if stored()[f * HEADER_SIZE:] == chunk else -1
+                out.label("reorg_via_ledger")
+            else:
+                try:
+                    added = aio.run(headers.connect(f, chunk))
+                except Exception as e:
+                    out.violate("history:connect-raises:%s" % type(e).__name__, repr(e)[:200])
+                    return out
+                # the header store was changed behind the ledger's back: its transaction cache is the ledger's business
+                # (update_headers clears it when it rewinds), so the harness does what that path does
+                ledger._tx_cache.clear()
             out.check(added == op["len"], "history:harness:reorg-not-connected", "%r of %d at %d" % (added, op["len"], f))
             newlen = len(stored()) // HEADER_SIZE
             for k in list(variant):
@@ -562,18 +615,51 @@ def run_history(case):
                 expected = M.fold(M.dsha256(raw), [M.from_wire(x) for x in reply["merkle"]], reply["pos"]) == root_stored
             net = StubNetwork(reply)
             ledger.network = net
-            try:
-                aio.run(ledger.maybe_verify_transaction(tx, h, dict(reply) if op["via"] == "arg" else None))
-            except Exception as e:
-                if expected:
-                    out.violate("history:genuine-proof-raises:%s" % type(e).__name__, repr(e)[:200])
-                    return out
+            if op["via"] == "cached":
+                # the path resolve / claim_search results take: request_transactions(cached=True) keeps verified transactions
+                # in the ledger's cache; the stub serves this transaction with `reply` as its proof
+                txid_hex = M.to_wire(M.dsha256(raw))
+                ledger.network = HistoryNetwork(server_chain, lambda: (raw, reply))
+
+                async def fetch():
+                    got = {}
+                    async for batch in ledger.request_transactions(((txid_hex, h),), cached=True):
+                        got.update(batch)
+                    return got
+                try:
+                    got = aio.run(fetch())
+                except Exception as e:
+                    if expected:
+                        out.violate("history:genuine-proof-raises:%s" % type(e).__name__, repr(e)[:200])
+                        return out
+                    got = {}
+                tx = got.get(txid_hex, tx)
+                out.label("verify_via_cached")
+            else:
+                try:
+                    aio.run(ledger.maybe_verify_transaction(tx, h, dict(reply) if op["via"] == "arg" else None))
+                except Exception as e:
+                    if expected:
+                        out.violate("history:genuine-proof-raises:%s" % type(e).__name__, repr(e)[:200])
+                        return out
             cls = "%s%s%s" % (op["proof"], ":after-reorg" if nreorg else "", ":same-object" if (op["reuse"] and key in txs and tx is txs[key] and nreverify) else "")
             if expected and tx.is_verified is not True:
                 out.violate("history:consistent-proof-rejected:" + cls, "step %d height %d variant %d" % (step, h, v))
                 return out
-            if not expected and tx.is_verified is True:
-                out.violate("history:verified-with-bad-proof:" + cls, "step %d height %d proof from height %d variant %d" % (step, h, src_h, src_v))
+            allowed = expected
+            if op["via"] == "cached" and not expected:
+                # a cache hit never looks at the reply: the transaction may stay verified at the height it is RECORDED at
+                # (tx.height) as long as it really is in the block of the header stored there now
+                th = tx.height
+                buf2 = stored()
+                if isinstance(th, int) and 0 < th < len(buf2) // HEADER_SIZE:
+                    genuine = M.fold(M.dsha256(raw), M.merkle_branch(leaves, i), i)
+                    allowed = genuine == buf2[th * HEADER_SIZE + 36: th * HEADER_SIZE + 68]
+                    if allowed:
+                        out.label("cached_verified_kept")
+            if not allowed and tx.is_verified is True:
+                out.violate("history:verified-with-bad-proof:" + cls + (":cached" if op["via"] == "cached" else ""),
+                            "step %d height %d (recorded %r) proof from height %d variant %d" % (step, h, tx.height, src_h, src_v))
                 return out
             out.label("proof:" + op["proof"], "expected_%s" % expected)
     out.nontrivial = bool(nreorg or nreverify)
@@ -595,7 +681,8 @@ PARTS = [
          essential=("none", "pos_flip_side", "branch_bitflip", "shorten", "lengthen", "side_neutral",
                     "side_neutral_dup", "odd_level_on_path", "via_arg", "via_network", "ntx_1")),
     Part("history", history_case, run_history, 400, 6000, quick_shards=4, thorough_shards=16,
-         essential=("has_reorg", "reverify_same_object", "proof:old_block", "proof:genuine", "reorg_len_>1")),
+         essential=("has_reorg", "reverify_same_object", "proof:old_block", "proof:genuine", "reorg_len_>1", "reorg_via_ledger",
+                    "verify_via_cached")),
     Part("gen", gen_case, run_case, 1500, 30000, quick_shards=4, thorough_shards=16,
          essential=tuple(MUTATIONS) + ("none", "via_arg", "via_network", "odd_level_on_path", "side_neutral",
                                        "side_neutral_dup", "height_out_of_bounds", "hex_case_neutral")),
